@@ -138,6 +138,59 @@ def type_twins(R, B, rng):
             R.case(mon.fp('twins', root.hash))
 
 
+def ordinary_over_exotic(R, B, rng):
+    """ordinary cells whose children are not level-0 cells (pruned branches of every mask, also pairs with non-nested masks such as 1 and 2, 1 and 4, 5 and 2;
+    library references; Merkle cells): they are ordinary cells all the same, and their hash is the representation hash of the specification"""
+    def pruned(mask):
+        n = rc.popcount(mask)
+        return rc.RC(rc.u(rc.PRUNED, 8) + rc.u(mask, 8) + ''.join(rc.bytes_to_bits(gen.rand_hash(rng)) for _ in range(n)) + ''.join(rc.u(rng.randrange(50), 16) for _ in range(n)), (), rc.PRUNED)
+    combos = [(a,) for a in range(1, 8)] + [(1, 2), (2, 1), (1, 4), (4, 1), (2, 4), (5, 2), (2, 5), (3, 4), (6, 1), (1, 2, 4), (7, 1, 2, 4)]
+    for masks in combos:
+        kids = [pruned(m) for m in masks]
+        if rng.random() < 0.5 and len(kids) < 4:
+            kids.insert(rng.randrange(len(kids) + 1), rc.RC(gen.rand_bits(rng, 7)))
+        r = rc.RC(gen.rand_bits(rng, rng.choice([0, 5, 64])), kids)
+        W = {'class': 'ordinary-over-exotic', 'child_masks': list(masks), 'boc': rc.encode_boc([r])}
+        for route in ('builder', 'boc', 'boc-hashes'):
+            st, c = mon.call(bridge.to_lib, r, route)
+            R.count('ordinary_over_exotic')
+            if st == 'exc':
+                R.violation(f'ordinary-over-exotic-raises-{route}', f'an ordinary cell over pruned branches with masks {masks} cannot be obtained via {route}: {c!r}', W)
+                continue
+            R.check(c.hash == r.hash and c.get_depth(0) == r.get_depth(0) and [c.get_hash(l) for l in range(4)] == [r.get_hash(l) for l in range(4)], 'hash-ordinary-over-exotic',
+                    f'hash / per-level hashes of an ordinary cell over pruned branches with masks {masks} ({route}) differ from the specification', W)
+            st2, c2 = mon.call(lambda: B.Cell.one_from_boc(c.to_boc()))
+            R.check(st2 == 'ok' and c2.hash == r.hash and c2 == c and hash(c2) == hash(c), 'hash-ordinary-over-exotic-roundtrip', 'round trip of an ordinary cell over exotic children changes its hash / equality', W)
+        R.case(mon.fp('ooe', r.hash))
+    for kid in (rc.make_library(gen.rand_hash(rng)), rc.make_merkle_proof(rc.RC('101', (rc.RC('1'),))), rc.make_merkle_update(rc.RC('1'), rc.RC('0'))):
+        r = rc.RC('11', (kid, rc.RC('0')))
+        c = bridge.to_lib(r, 'boc')
+        R.check(c.hash == r.hash and c.get_depth(0) == r.depth, 'hash-ordinary-over-exotic', 'ordinary cell over a library / Merkle cell: hash differs from the specification', {'boc': rc.encode_boc([r])})
+
+
+def subclass_equality(R, B, rng):
+    """cells of a subclass of Cell (the parser constructs `cls` objects) are cells: equal to, and colliding as dictionary keys with, plain cells of the same hash"""
+    class MyCell(B.Cell):
+        pass
+    for i in range(12):
+        r = gen.rand_dag(rng, rng.choice([1, 3, 6]), max_bits=40)
+        plain = bridge.to_lib(r, 'builder')
+        data = plain.to_boc()
+        st, sub = mon.call(MyCell.one_from_boc, data)
+        if st == 'exc':
+            R.violation('subclass-parse-raises', f'a subclass of Cell cannot parse a bag: {sub!r}', {})
+            continue
+        W = {'boc': rc.encode_boc([r]), 'class_of_parsed': type(sub).__name__}
+        others = [('plain built', plain), ('plain parsed', B.Cell.one_from_boc(data)), ('copy of subclass object', sub.copy()), ('via slice', sub.begin_parse().to_cell()),
+                  ('via builder', sub.to_builder().end_cell()), ('subclass list parse', MyCell.from_boc(data)[0])]
+        for name, o in others:
+            R.check(sub == o and o == sub and not (sub != o) and hash(sub) == hash(o) and len({sub, o}) == 1 and {sub: 1}.get(o) == 1 and {o: 1}.get(sub) == 1, 'equality-across-cell-classes',
+                    f'a cell parsed through a Cell subclass and the same cell obtained as "{name}" ({type(o).__name__}) do not compare equal / collide as dictionary keys', dict(W, other=name))
+            R.count('subclass_equality_pairs')
+        other_r = rc.RC(r.bits + '1' if len(r.bits) < 1023 else r.bits[:-1], r.refs)
+        R.check(sub != bridge.to_lib(other_r), 'equality-across-cell-classes-neq', 'different cells compare equal across classes', W)
+
+
 def forged_stored_hashes(R, B, r, rng, W):
     """a bag of cells whose optional stored hash / depth block is untrue: the parser may refuse it, but a cell it returns must report
     the hash and depth of its content"""
@@ -329,6 +382,8 @@ def run(R):
     equality_pool(R, B, rng, 25 if quick else 150)
     if R.shard == 0:
         type_twins(R, B, rng)
+        ordinary_over_exotic(R, B, rng)
+        subclass_equality(R, B, rng)
     if R.shard == 0:
         depth_limits(R, B, rng, full=not quick)
     inv.revalidate('end of run')
